@@ -57,7 +57,7 @@ type mkGen struct {
 	backslash   bool
 }
 
-var mkNames = []string{"b", "wave", "i2", "shake", "é", "日本", "_x", "color", "Ünï", "a"}
+var mkNames = []string{"b", "wave", "i2", "shake", "é", "日本", "_x", "color", "Ünï", "a", "Wave", "WAVE", "B", "Shake", "É"}
 var textPools = map[string][]string{
 	"ascii":     {"a", "b", "hello", "X", "z9", "it's", "ok!", "n,m", "-", "+", "(x)", "100%"},
 	"multibyte": {"é", "ß", "Ωμέγα", "ж", "ñandú"},
@@ -614,6 +614,11 @@ var hostileTokens = []string{
 	"[ordinal value=18446744073709551613 few=\"x\"/]",
 	"[select value=a a=\"\"/]", "[plural value=1.5 other=\"%\"/]", "[ordinal value=1 /]", "[select a=1/]", "[plural value=x one=\"a\"/]",
 	"0", "12", "1.5", ".", "%", "[/]", "[/", "/]", "[a]", "[/a]", "[b/]", "[nomarkup]", "[/nomarkup]", "[select value=", "\\[", "\\]", "٣", "  ", "　", " ",
+	// a full-width colon (which is no speaker separator), speaker prefixes, explicit character markers
+	"：", "A：", "旁白：", "好", "Mae: ", "Ünï: ", "[character name=\"Mae\"/]", "[character name=\"Mae\"]", "[/character]",
+	// the names of the replacement markers, and ordinary names, in other letter cases
+	"[NoMarkup]", "[/NoMarkup]", "[NOMARKUP]", "[Plural value=1 one=\"one\"]", "[Select value=a a=\"x\"/]", "[ORDINAL value=1 one=\"st\"/]", "[/Plural]",
+	"NoMarkup", "Select", "[Wave]", "[/wave]", "[wave]", "[/Wave]", "[WAVE/]", "[A]", "[/A]",
 }
 
 // HostileMarkup assembles a string from marker fragments and hostile bytes.
